@@ -140,6 +140,10 @@ def run(ck):
                 bad = 'steps = %s, expected octet_ring_size(c)' % (fmt(st.get('steps')) if st.get('steps') else None)
             if st.get('size') != fld('datasize'):
                 bad = 'iterator size = %s, expected the capacity' % (fmt(st.get('size')) if st.get('size') else None)
+            # rb_iter_advance dispatches on iter->mode: the constructor has to record the direction it was asked for
+            if strip_cast(st.get('mode') or ('c', -1)) != ('v', 'mode'):
+                bad = bad or ('iterator mode = %s, expected the mode parameter: rb_iter_advance steps in the direction stored in the iterator, '
+                              'an iterator that does not record it walks in whatever direction the caller\'s memory held' % (fmt(st['mode']) if st.get('mode') else 'not stored'))
             mv = None
             for c in p.cond_terms():
                 if c[0] == 'cmp' and c[1] == '==' and c[2] == ('v', 'mode') and sym.is_c(c[3]):
